@@ -462,7 +462,7 @@ func c18RunACase(c c18ACase, deadline time.Duration, ev *c18Runner) (msg string,
 	dir, cleanup := verifkit.TempDir("c18arena")
 	defer cleanup()
 	r := &c18Runner{dir: dir, vecSize: c.VecSize, perChunk: c.PerChunk, model: map[uint32]uint32{},
-		upd: &c18Updater{ptr: map[uint32]*atomic.Pointer[[]byte]{}}, nextNew: 1 << 20, deadline: deadline}
+		upd: &c18Updater{ptr: map[uint32]*atomic.Pointer[[]byte]{}}, nextNew: 4096, deadline: deadline}
 	defer func() {
 		if ev != nil {
 			*ev = *r
